@@ -32,6 +32,14 @@ def _run(case):
 
     t0 = case.get('late') or 0
     box = {}
+    if case.get('machine'):
+        # an unrelated machine goes down, comes back and fails while the timetable runs: none of the scheduler's business
+        from simprocesd.model.factory_floor import PartProcessor
+        mach = PartProcessor('mach', None, 1)
+        dn, up_, fl = case['machine']
+        env.schedule_event(dn, -4, mach.shutdown, 12.5)
+        env.schedule_event(up_, -4, mach.restore_functionality, 12.5)
+        env.schedule_event(fl, -4, lambda: mach.schedule_failure(env.now), 12.5)
 
     def make():
         mine = [tuple(x) for x in tt]       # the caller's own list ...
